@@ -109,6 +109,10 @@ func Run(h History, opt Options) *Outcome {
 	var sentAhead int // bytes of the current message that were already sent with the previous one
 	for i, msg := range h.Msgs {
 		before := len(env.Trace())
+		var snap *model.Model
+		if msg.AltFail {
+			snap = md.Snapshot()
+		}
 		exp, evs := md.Step(msg)
 		out := msg.Bytes()[sentAhead:]
 		sentAhead = 0
@@ -145,6 +149,12 @@ func Run(h History, opt Options) *Outcome {
 		}
 		if step.Err != nil {
 			return o.fail(opt.Prefix+"/"+msg.K+"/grammar", "%s: %v", where, step.Err)
+		}
+		if snap != nil && step.Err == nil && step.State == memnet.Idle && len(step.Msgs) == 1 && step.Msgs[0].Type == 'E' && !snap.Discard {
+			// refused: what the message would have defined does not exist, the rest is discarded up to Sync
+			md.Restore(snap)
+			md.Discard = true
+			exp, evs = []model.Exp{{T: 'E', Why: "message refused (admissible alternative)"}}, nil
 		}
 		if msg.MayClose && step.State == memnet.Closed && step.Err == nil {
 			// rejected as fatal: nothing but (at most) one ErrorResponse, and the session is over
